@@ -280,9 +280,10 @@ func genReset(fset *token.FileSet, files []*ast.File, info *types.Info, pkgName 
 		body = append(body, fmt.Sprintf("\t%s = %s", strings.Join(lhs, ", "), exprStr(in.Rhs)))
 	}
 	all := strings.Join(body, "\n")
-	if strings.Contains(all, "sync.Mutex") || strings.Contains(all, "sync.RWMutex") {
-		// the instrumented copy declares these variables with the simulator's mutex types
+	if strings.Contains(all, "sync.Mutex") || strings.Contains(all, "sync.RWMutex") || strings.Contains(all, "sync.Pool") || strings.Contains(all, "sync.Once") {
+		// the instrumented copy declares these variables with the simulator's types
 		all = strings.ReplaceAll(strings.ReplaceAll(all, "sync.RWMutex", "simrt.RWMutex"), "sync.Mutex", "simrt.Mutex")
+		all = strings.ReplaceAll(strings.ReplaceAll(all, "sync.Pool", "simrt.Pool"), "sync.Once", "simrt.Once")
 		imports[*mod+"/simrt"] = "simrt"
 		if !strings.Contains(all, "sync.") {
 			delete(imports, "sync")
@@ -401,7 +402,7 @@ func (fc *fileCtx) rewrite() {
 		if !ok {
 			return true
 		}
-		if syncName != "" && id.Name == syncName && (se.Sel.Name == "Mutex" || se.Sel.Name == "RWMutex") && fc.isPkg(id) {
+		if syncName != "" && id.Name == syncName && (se.Sel.Name == "Mutex" || se.Sel.Name == "RWMutex" || se.Sel.Name == "Pool" || se.Sel.Name == "Once") && fc.isPkg(id) {
 			id.Name = "simrt"
 			fc.needs["simrt"] = true
 			st.sites["mutex"]++
